@@ -11,6 +11,7 @@ require (
 	github.com/aperturerobotics/util v1.33.1
 	github.com/blang/semver/v4 v4.0.0
 	github.com/mr-tron/base58 v1.3.0
+	github.com/quic-go/quic-go v0.59.0
 	github.com/sirupsen/logrus v1.9.5-0.20260309202648-9f0600962f75
 	golang.org/x/crypto v0.50.0
 )
@@ -51,7 +52,6 @@ require (
 	github.com/pion/turn/v4 v4.1.4 // indirect
 	github.com/pion/webrtc/v4 v4.2.11 // indirect
 	github.com/pkg/errors v0.9.1 // indirect
-	github.com/quic-go/quic-go v0.59.0 // indirect
 	github.com/spaolacci/murmur3 v1.1.0 // indirect
 	github.com/wlynxg/anet v0.0.5 // indirect
 	github.com/zeebo/blake3 v0.2.4 // indirect
